@@ -51,12 +51,12 @@ def record_and_validate(ev, part, executions, steps, only_ops=None):
     b = vf.build("st_record", "st_record.cpp")
     work = os.path.join(vf.BUILD, "work", "%s_%s_%d" % (ev.prop, part, os.getpid()))
     os.makedirs(work, exist_ok=True)
-    pr = vf.run([b, work, str(vf.seed()), str(executions), str(steps)], ok_codes=(0, 3))
+    pr, crashed = vf.run_recorder([b, work, str(vf.seed()), str(executions), str(steps)])
     files = sorted(glob.glob(os.path.join(work, "st_*.ndjson")))
     res = vf.validate_traces("Trace_SimplexTree", "Trace_SimplexTree.cfg", files)
     rejected = []
-    if pr.returncode == 3:   # the library crashed / threw while an execution was being recorded
-        rejected.append({"kind": "recorder_crash", "output": (pr.stdout.decode(errors="replace") + pr.stderr.decode(errors="replace"))[-1500:]})
+    if crashed:   # the library crashed / threw while an execution was being recorded
+        rejected.append(crashed)
     nev = 0
     ops = {}
     for r in res:
